@@ -349,6 +349,8 @@ def unit_wrappers(S):
                 what="for all finite low < high, min < max: every x in [min, max] (the space RescaleAction declares) is forwarded to backward(x) in [low, high] (the wrapped action space)")
     else:
         S.fact("RescaleAction/declared-actions-forwarded-into-the-inner-space", False, function="lerax.wrapper.utils:rescale_box", what="rescale_box has exactly one accepting path", detail=len(paths))
+    # one-sided target ranges (RescaleObservation(env, min=-inf, max=c) etc.): observations forwarded into the declared box, per-dimension finiteness patterns
+    C13.rescale_onesided_obligations(S, "lerax.wrapper.utils:rescale_box")
     wf = W.FlattenObservation(inner0)
     S.fact("FlattenObservation/shape", tuple(wf.observation_space.shape) == (inner0.observation_space.flat_size,), function=fn + ":FlattenObservation", what="the flattened observation has flat_size entries, the advertised shape")
 
